@@ -261,6 +261,10 @@ def fn_props(g, unit):
         ps = set()
         for lab in f["labels"]:
             ps |= props_of_label(lab)
+        if not ps:
+            # a function under contract whose clauses carry no property label (constructors, small accessors) supports every
+            # property of its unit: a failure in it must not be attributed to the `serves_all` properties only
+            ps = set(unit.get("serves", []))
         ps |= set(unit.get("serves_all", []))
         m[f["fn"]] = ps
     return m
